@@ -1,7 +1,9 @@
 mod alloc;
 mod check;
 mod engine;
+mod fam_c12;
 mod fam_c13;
+mod fam_c14;
 mod fam_c17;
 mod families;
 mod generate;
@@ -47,7 +49,7 @@ fn main() {
             let prop = args[2].as_str();
             let tier = args.get(3).map(|s| s.as_str()).unwrap_or("quick");
             let code = match prop {
-                "C01" | "C02" | "C03" | "C04" | "C05" | "C06" | "C07" | "C08" | "C09" | "C10" | "C11" | "C12" | "C16" => {
+                "C01" | "C02" | "C03" | "C04" | "C05" | "C06" | "C07" | "C08" | "C09" | "C10" | "C11" | "C16" => {
                     check::check::<repl_engine::Repl>(prop, tier, "exploration", serde_json::Value::Null)
                 }
                 _ => families::check(prop, tier),
@@ -71,6 +73,9 @@ fn main() {
                 _ => families::replay(&r),
             };
             std::process::exit(code);
+        }
+        Some("c14hash") => {
+            println!("{}", fam_c14::hash_of(&fam_c14::CANON));
         }
         Some("scenarios") => {
             for sc in scenarios::all() {
